@@ -766,6 +766,12 @@ func (g *Gen) comparableType() int {
 func (g *Gen) ParallelProgram(pid int) *ps.Program {
 	p := &ps.Program{PID: pid, Kind: "par", Stream: "wf", Mode: "base"}
 	nt := g.R.Intn(5)
+	// Collections-only directives whose collections are all empty or nil: the End hooks are then
+	// the only jobs and must still run exactly once.
+	emptyOnly := g.chance(14)
+	if emptyOnly {
+		nt = 0
+	}
 	for k := 0; k < nt; k++ {
 		p.PTasks = append(p.PTasks, &ps.PTask{K: k, Ctx: g.chance(45), Err: g.chance(60), Group: -1})
 	}
@@ -786,8 +792,14 @@ func (g *Gen) ParallelProgram(pid int) *ps.Program {
 	if nt == 0 && ns == 0 && nm == 0 {
 		ns = 1
 	}
+	pickLen := func() int {
+		if emptyOnly {
+			return sizes[g.R.Intn(2)]
+		}
+		return sizes[g.R.Intn(len(sizes))]
+	}
 	for s := 0; s < ns; s++ {
-		sl := &ps.Slice{S: s, Idx: g.chance(65), Ctx: g.chance(45), Err: g.chance(65), Len: sizes[g.R.Intn(len(sizes))],
+		sl := &ps.Slice{S: s, Idx: g.chance(65), Ctx: g.chance(45), Err: g.chance(65), Len: pickLen(),
 			Named: g.chance(30), Form: "lit", Assign: true}
 		sl.Elem, sl.Param = g.assignablePair(false)
 		if ps.Types[sl.Param].Home == "ext" || g.chance(25) {
@@ -796,7 +808,7 @@ func (g *Gen) ParallelProgram(pid int) *ps.Program {
 		p.Slices = append(p.Slices, sl)
 	}
 	for m := 0; m < nm; m++ {
-		mp := &ps.Map{M: m, Ctx: g.chance(45), Err: g.chance(65), Len: sizes[g.R.Intn(len(sizes))],
+		mp := &ps.Map{M: m, Ctx: g.chance(45), Err: g.chance(65), Len: pickLen(),
 			Form: "lit", Assign: true}
 		mp.Key, mp.KParam = g.assignablePair(true)
 		mp.Val, mp.VParam = g.assignablePair(false)
@@ -806,16 +818,20 @@ func (g *Gen) ParallelProgram(pid int) *ps.Program {
 		p.Maps = append(p.Maps, mp)
 	}
 	// ContinueOnError excludes End hooks (the tool refuses the combination).
-	if g.chance(40) {
+	endChance := 55
+	if emptyOnly {
+		endChance = 85
+	}
+	if !emptyOnly && g.chance(40) {
 		p.COE = g.pickS("const0", "const1", "const1", "expr0", "expr1", "expr1")
 	} else {
 		for _, s := range p.Slices {
-			if g.chance(55) {
+			if g.chance(endChance) {
 				s.End, s.EndCtx, s.EndErr = true, g.chance(40), g.chance(60)
 			}
 		}
 		for _, m := range p.Maps {
-			if g.chance(55) {
+			if g.chance(endChance) {
 				m.End, m.EndCtx, m.EndErr = true, g.chance(40), g.chance(60)
 			}
 		}
